@@ -184,8 +184,11 @@ class Gen:
                 out.extend(indent + l for l in self.loop_block(scope, depth + 1))
             elif k < 0.88 and self.hooks:
                 out.append(indent + f"@{r.choice(['hook', 'unhook'])} turn_end {r.choice(self.hooks)}")
-            elif k < 0.93 and self.p.directives:
+            elif k < 0.91 and self.p.directives:
                 out.append(indent + f"@render panel({self.int_expr(scope, 1)})")
+            elif k < 0.94 and self.p.directives:
+                out.append(indent + r.choice(['@input name="blk"', '@input name="who" label="Who"']))
+                self.tag("input-in-block")
             else:
                 out.append(indent + self.text_line(scope))
         if r.random() < 0.3:
@@ -215,6 +218,10 @@ class Gen:
         self.tag("loop")
         var = r.choice(["i", "j", "it"])
         coll = self.maybe_fault(r.choice(["list(xs)", "range(2)", "range(a % 4)", "[1, 2, 3]", "xs + [7]", "list(d)"]), "loop-coll")
+        if self.p.faults and r.random() < self.p.faults:
+            # a collection that evaluates without error to something that cannot be iterated
+            coll = r.choice(["a", "n + 1", "d.get('zz')", "None", "flag"])
+            self.tag("fault:loop-not-iterable")
         out = [f"@for {var} in {coll}:"]
         sc = tuple(scope) + ((var,) if coll != "list(d)" else ())
         inner = []
@@ -290,6 +297,11 @@ class Gen:
                                       '@input name="nm"']))
             else:
                 body.append(self.text_line(scope))
+        if self.p.directives and r.random() < 0.3 * self.p.directives / 0.2 * 0.5:
+            # input directives at both levels of one passage: passage level and inside an active block
+            body += ['@input name="top"', f"@if {r.choice(['True', 'a >= 0', 'not False'])}:", '    @input name="inner"',
+                     "    asked", "@endif"]
+            self.tag("input-both-levels")
         out += body
         jumped = False
         if name != "Start" and r.random() < self.p.jumps:
@@ -353,7 +365,9 @@ class Gen:
                     elif kk < 0.75:
                         out.append("    ~ " + r.choice(["jn = jn + 1", self.stmt()]))
                     elif self.hooks:
-                        out.append(f"    @{r.choice(['hook', 'unhook', 'unhook'])} turn_end {r.choice(self.hooks)}")
+                        # mostly the hook that Start registers (so that the command has a visible effect)
+                        hk = self.hooks[0] if r.random() < 0.6 else r.choice(self.hooks)
+                        out.append(f"    @{r.choice(['hook', 'unhook', 'unhook'])} turn_end {hk}")
                         self.tag("hookcmd-in-join-block")
             if r.random() < 0.6:
                 out.append(self.choice_line())
